@@ -11,7 +11,7 @@ from typing import Any, Dict, List, Optional
 from . import VERIF_ROOT
 from .model import norm_text
 
-EVIDENCE_DIR = os.path.join(VERIF_ROOT, "evidence")
+EVIDENCE_DIR = os.environ.get("KVERIF_EVIDENCE_DIR") or os.path.join(VERIF_ROOT, "evidence")
 REPLAY_DIR = os.path.join(EVIDENCE_DIR, "replay")
 KNOWN_FILE = os.path.join(VERIF_ROOT, "known_findings.json")
 
